@@ -114,15 +114,12 @@ def translate(which=None):
 
 
 def build_rocq(targets=None):
-    """Full .vo build (never -vos). Returns (ok, log, failed_files)."""
-    with Lock("rocq"):
-        if not os.path.exists(os.path.join(ROCQ, "Makefile")) or \
-                os.path.getmtime(os.path.join(ROCQ, "Makefile")) < os.path.getmtime(os.path.join(ROCQ, "_CoqProject")):
-            sh("coq_makefile -f _CoqProject -o Makefile", cwd=ROCQ, check=True)
-        tg = " ".join(targets) if targets else ""
-        rc, out = sh("timeout 3000 make -k -j16 %s" % tg, cwd=ROCQ, timeout=3100)
-        failed = re.findall(r"\*\*\* \[Makefile[^\]]*: ([^\]]+\.vo)\] Error", out)
-        return rc == 0, out, failed
+    """Full .vo build (never -vos) through tools/rocqmake (flock inside). Returns (ok, log, failed_files)."""
+    tg = " ".join(targets) if targets else ""
+    rc, out = sh("%s/tools/rocqmake %s; echo RC=$?" % (VERIF, tg), timeout=3200)
+    failed = re.findall(r"\*\*\* \[Makefile[^\]]*: ([^\]]+\.vo)\] Error", out)
+    ok = not failed and re.search(r"RC=0\s*$", out) is not None
+    return ok, out, failed
 
 
 def props(cid):
@@ -393,7 +390,7 @@ class Check:
         pr["forbidden"] = bad
         pr["make_log"] = out[-3000:] if not ok else ""
         pr["wall_s"] = round(time.time() - t, 1)
-        if bad:
+        if bad or not ok:
             pr["ok"] = False
         self.proof = pr
         return pr["ok"] and not bad
